@@ -85,6 +85,25 @@ pub fn time_pool() -> Vec<i64> {
     v
 }
 
+/// times of day at bit-structured positions: k * 2^j (+-1) microseconds after midnight and before the next
+/// midnight. Narrowing casts and shifts in day/time splitting code go wrong exactly at such values.
+pub fn bit_times() -> Vec<i64> {
+    let mut v = vec![];
+    for j in 0..37u32 {
+        for k in 1..=24i64 {
+            let x = k << j;
+            for e in [-1i64, 0, 1] {
+                v.push(x + e);
+                v.push(DAY_US - x + e);
+            }
+        }
+    }
+    v.retain(|t| (0..DAY_US).contains(t));
+    v.sort();
+    v.dedup();
+    v
+}
+
 pub fn ts_pool() -> Vec<i64> {
     let mut v = vec![];
     let times = time_pool();
